@@ -26,7 +26,8 @@ Definition re_menu : list (str * bool) := [
   ([97; 58; 63; 92; 46], true);        (* 10 a:?\.  *)
   ([94; 97; 46], true);                (* 11 ^a.    *)
   ([94; 98; 36], true);                (* 12 ^b$    *)
-  ([94; 91; 97; 45; 122; 46; 93; 43; 36], true)  (* 13 ^[a-z.]+$ *)
+  ([94; 91; 97; 45; 122; 46; 93; 43; 36], true); (* 13 ^[a-z.]+$ *)
+  ([94; 92; 68], true)                 (* 14 ^\D    *)
 ].
 
 Fixpoint menu_find (e : str) (i : N) (m : list (str * bool)) : option (N * bool) :=
@@ -64,7 +65,15 @@ Inductive case :=
       for 1..4 the queries run only when the constructor succeeded. [intended] = the
       rules the generator meant to express (up to the first broken line). *)
 | CLoad (which : N) (dflt : str) (entries : list str) (text : str) (failed : bool)
-        (intended : list irule) (qs : list query).
+        (intended : list irule) (qs : list query)
+  (** domain sets assembled from members: [sets] are created in list order as
+      domain_set plugins (exps, one file, references to EARLIER sets by index).
+      The set [top] is then consumed: via = 0 [GetDomainMatcher().Match], 1 a qname
+      matcher "$top", 2 a qname matcher "extra-exps... $top". [intended] = all
+      rules of the sets reachable from [top] (and [extra]), as the generator
+      computed them. *)
+| CCompose (sets : list (list str * str * list N)) (top via : N) (extra : list str)
+           (failed : bool) (intended : list irule) (qs : list query).
 
 (** ** the model on a case *)
 
@@ -142,6 +151,27 @@ Definition run_load (which : N) (dflt : str) (entries : list str) (text : str) :
 Definition loaded_view (which : N) (m : @mix VV) : @mix VV :=
   if is_provider which && (mix_len m =? 0) then empty_mix else m.
 
+(** every domain_set as the group of matchers it hands out *)
+Definition build_sets (sets : list (list str * str * list N)) : list (list (@mix VV)) * bool :=
+  fold_left (fun acc d =>
+               let '(groups, failed) := acc in
+               let '(exps, text, refs) := d in
+               let '(m, f) := run_load 1 [] exps text in
+               (groups ++ [set_members m (map (fun i => nth (N.to_nat i) groups []) refs)], failed || f))
+            sets ([], false).
+
+Definition compose_group (sets : list (list str * str * list N)) (top via : N) (extra : list str)
+  : list (@mix VV) * bool :=
+  let '(groups, f) := build_sets sets in
+  let g := nth (N.to_nat top) groups [] in
+  match via with
+  | 0 => (g, f)
+  | 1 => (g, f)
+  | _ => let '(m, f2) := run_load 4 [] extra [] in
+         (* base_domain.NewMatcher: referenced sets first, then its own anonymous set *)
+         (g ++ set_members m [], f || f2)
+  end.
+
 Definition agree (c : case) : bool :=
   match c with
   | CMix dflt rules errs qs =>
@@ -156,6 +186,14 @@ Definition agree (c : case) : bool :=
     Bool.eqb f failed
     && (if f && negb (which =? 0) then match qs with [] => true | _ :: _ => false end
         else check_queries (loaded_view which m) qs)
+  | CCompose sets top via extra failed _ qs =>
+    let '(g, f) := compose_group sets top via extra in
+    Bool.eqb f failed
+    && (if f then match qs with [] => true | _ :: _ => false end
+        else forallb (fun q => match q with
+                               | Q n mask obs =>
+                                 obs_ok (if group_matches (re_match_j mask) g n then [[]] else []) obs
+                               end) qs)
   end.
 
 (** ** the property's own oracle: test every rule against the name *)
@@ -270,9 +308,13 @@ Definition case_rules (c : case) : list irule :=
     intend_all (match kind with 1 => s_full | 2 => s_domain | 3 => s_regexp | _ => s_keyword end)
                (map (fun r => (c_colon :: fst r, snd r)) rules)
   | CLoad _ _ _ _ _ intended _ => intended
+  | CCompose _ _ _ _ _ intended _ => intended
   end.
 Definition case_queries (c : case) : list query :=
-  match c with CMix _ _ _ qs => qs | CSingle _ _ _ qs => qs | CLoad _ _ _ _ _ _ qs => qs end.
+  match c with
+  | CMix _ _ _ qs => qs | CSingle _ _ _ qs => qs | CLoad _ _ _ _ _ _ qs => qs
+  | CCompose _ _ _ _ _ _ qs => qs
+  end.
 
 Definition spec (c : case) : bool :=
   let rs := case_rules c in
